@@ -50,6 +50,7 @@ def check(ctx):
         ctx.rule("C10-R5", "voxel grid invariants: a voxel size is recomputed only from a positive extent; periodic y / z ranges are clamped to one period as the last adjustment before the loop")
         r5_voxel_invariants(ctx, cf)
         r5_face_tests(ctx, cf)
+        r5_disjoint_x_ranges(ctx, cf)
         r5_y_range_of_a_z_voxel(ctx, cf)
     finally:
         C.MEMBER_OBJECTS = False
@@ -613,6 +614,119 @@ def r5_face_tests(ctx, cf):
     ctx.decide(lead == "usePeriodic" and flat == want, "C10-R5", C.line(decl[0]), NL, "Voxels::getNeighbors",
                "needPeriodic = usePeriodic and (within maxDistance of a y or z face, same axis on both sides of each test, or the x range leaves the cell)", "",
                "the face tests are %s (expected %s): an atom near the face whose test is missing or uses another axis's box length is searched without periodic images" % (flat, want))
+
+
+def r5_disjoint_x_ranges(ctx, cf):
+    """Near a cell face the atoms of one voxel are searched in two index ranges of its sorted bin (the primary one and the wrapped one).  The block
+    that sets them is value-numbered (sa/symval.py; findLowerBound / findUpperBound kept as opaque functions of their arguments, known only to return
+    an index >= their lower hint and <= the larger of their hints - read off their loops): on every path that searches two ranges, the second ends at
+    or before the start of the first or starts at or after its end.  Overlapping ranges list an atom twice."""
+    from ..symval import SymExec, State, Ptr, Unsupported, elementary_facts, has_fact
+    from ..poly import Poly, Rat
+    gn = cf.function(NL, "getNeighbors")
+    blocks = [n for n in C.walk(gn) if n["kind"] == "IfStmt" and re.sub(r"[\s()]", "", C.text(C.kids(n)[0])).replace("this.", "") == "needPeriodic"]
+    desc = "the two x ranges searched in a voxel near a cell face do not overlap"
+    if not blocks:
+        ctx.undecided("C10-R5", C.line(gn), NL, "Voxels::getNeighbors", desc, "the block that sets the search ranges under `needPeriodic` was not found")
+        return
+    blk = blocks[0]
+    arrays = sorted({C.root_var(C.kids(x_)[0])[0] for x_ in C.walk(blk) if x_["kind"] == "BinaryOperator" and x_.get("opcode") == "=" and C.strip(C.kids(x_)[0]).get("kind") == "ArraySubscriptExpr"} - {None})
+    if len(arrays) != 2:
+        ctx.undecided("C10-R5", C.line(blk), NL, "Voxels::getNeighbors", desc, "the range arrays were not recognised (%s)" % arrays)
+        return
+
+    def model(name, args, n, st, ex_):
+        vals = [a for a in args if isinstance(a, Rat)]
+        if name in ("findLowerBound", "findUpperBound") and len(vals) >= 2:
+            return ex_.opaque_call(name, vals)
+        if name in ("min", "max") and len(vals) == 2 and len(args) == 2:
+            return ex_.opaque_call(name, vals)
+        return None
+    ex = SymExec(cf, NL, call_model=model)
+    # which array holds the starts: the one assigned before the block from findLowerBound (the other holds the ends)
+    pre = [x_ for x_ in C.walk(gn) if x_["kind"] == "BinaryOperator" and x_.get("opcode") == "=" and C.strip(C.kids(x_)[0]).get("kind") == "ArraySubscriptExpr"
+           and C.root_var(C.kids(x_)[0])[0] in arrays and "findLowerBound" in C.text(C.kids(x_)[1]) and not any(y_ is x_ for y_ in C.walk(blk))]
+    if not pre:
+        ctx.undecided("C10-R5", C.line(blk), NL, "Voxels::getNeighbors", desc, "the start of the primary range (findLowerBound before the block) was not found")
+        return
+    S_ = C.root_var(C.kids(pre[0])[0])[0]
+    E_ = [a_ for a_ in arrays if a_ != S_][0]
+    st = State()
+    for a_ in arrays:
+        st.env[a_] = Ptr(a_, 0)
+    s0 = Rat(Poly.var("start0"))
+    st.env[(S_, 0)] = s0
+    for nm in ("needPeriodic", "this.needPeriodic"):
+        st.env[nm] = Rat(Poly.const(1))
+    # members and locals of the enclosing function that the block subscripts: arrays of unknown content
+    for x_ in C.walk(blk):
+        if x_["kind"] in ("ArraySubscriptExpr", "CXXOperatorCallExpr"):
+            base = C.kids(x_)[0] if x_["kind"] == "ArraySubscriptExpr" else (C.call_args(x_)[0] if C.call_args(x_) else None)
+            while base is not None and C.strip(base).get("kind") in ("ArraySubscriptExpr", "CXXOperatorCallExpr"):
+                b_ = C.strip(base)
+                base = C.kids(b_)[0] if b_["kind"] == "ArraySubscriptExpr" else (C.call_args(b_)[0] if C.call_args(b_) else None)
+            t_ = re.sub(r"\s", "", C.text(base)) if base is not None else ""
+            if t_ and re.match(r"^(this\.)?\w+$", t_) and t_.replace("this.", "") not in arrays:
+                for nm in (t_, t_.replace("this.", ""), "this." + t_.replace("this.", "")):
+                    st.env.setdefault(nm, Ptr(t_.replace("this.", ""), 0))
+    try:
+        outs = ex.run([blk], st)
+    except Unsupported as e:
+        ctx.undecided("C10-R5", C.line(blk), NL, "Voxels::getNeighbors", desc, "not evaluable: %s" % e)
+        return
+
+    def args_of(v):
+        if isinstance(v, Rat) and len(v.vars()) == 1 and v == Rat(Poly.var(list(v.vars())[0])):
+            return ex.opaque.get(list(v.vars())[0])
+        return None
+
+    def ge(v, b, facts, depth=0):
+        if v == b or has_fact(facts, "<=", b - v) or has_fact(facts, "<", b - v):
+            return True
+        d_ = (v - b).const_value() if isinstance(v, Rat) and isinstance(b, Rat) else None
+        if d_ is not None and d_ >= 0:
+            return True
+        o_ = args_of(v)
+        if o_ and depth < 4:
+            if o_[0] == "max":
+                return any(ge(a_, b, facts, depth + 1) for a_ in o_[1])
+            if o_[0] == "min":
+                return all(ge(a_, b, facts, depth + 1) for a_ in o_[1])
+            if o_[0] in ("findLowerBound", "findUpperBound"):
+                return ge(o_[1][-2], b, facts, depth + 1)       # the result is never below the lower hint
+        return False
+
+    def le(v, b, facts, depth=0):
+        if v == b or has_fact(facts, "<=", v - b) or has_fact(facts, "<", v - b):
+            return True
+        d_ = (b - v).const_value() if isinstance(v, Rat) and isinstance(b, Rat) else None
+        if d_ is not None and d_ >= 0:
+            return True
+        o_ = args_of(v)
+        if o_ and depth < 4:
+            if o_[0] == "min":
+                return any(le(a_, b, facts, depth + 1) for a_ in o_[1])
+            if o_[0] == "max":
+                return all(le(a_, b, facts, depth + 1) for a_ in o_[1])
+            if o_[0] in ("findLowerBound", "findUpperBound"):
+                return le(o_[1][-2], b, facts, depth + 1) and le(o_[1][-1], b, facts, depth + 1)       # ... nor above the larger hint
+        return False
+    n_two, bad = 0, []
+    for o in outs:
+        s1, e1, e0 = o.env.get((S_, 1)), o.env.get((E_, 1)), o.env.get((E_, 0))
+        if s1 is None or e1 is None or e0 is None:
+            continue        # one range only on this path
+        n_two += 1
+        facts = []
+        for (cv, pol), (txt, _p) in zip(o.cexprs, o.cvals):
+            facts += elementary_facts(ex, cv if cv is not None else txt, pol)
+        if not (le(e1, s0, facts) or ge(s1, e0, facts)):
+            bad.append("second range [%s, %s) against the first [start0, %s)" % (repr(s1)[:70], repr(e1)[:50], repr(e0)[:50]))
+    if n_two == 0:
+        ctx.undecided("C10-R5", C.line(blk), NL, "Voxels::getNeighbors", desc, "no path sets a second range")
+        return
+    ctx.decide(not bad, "C10-R5", C.line(blk), NL, "Voxels::getNeighbors", desc + " (%d paths with two ranges)" % n_two, "",
+               "neither `end of the second <= start of the first` nor `start of the second >= end of the first` is established: %s - an atom inside both is listed twice" % "; ".join(bad[:2]))
 
 
 def r5_y_range_of_a_z_voxel(ctx, cf):
